@@ -92,6 +92,20 @@ func (*Typechecker).VisitTernaryExpr [C04, C02]
   ensures reached(LS) && overload == nil && ast.numericCls(clsOf(lhs)) && ast.numericCls(clsOf(mid)) && ast.numericCls(clsOf(rhs)) ==>
             t.Module.Ast.Faulty == at(LS, t.Module.Ast.Faulty) && clsOf(t.latestReturnedType) == 4
 
+// --- explicit conversions between the primitive classes (no type definitions involved) ---
+func (*Typechecker).findOverloadCast
+  trusted
+  modifies *
+  ensures t.Module.Ast.Faulty == old(t.Module.Ast.Faulty) && t.latestReturnedType == old(t.latestReturnedType)
+func (*Typechecker).VisitCastExpr [C04, C02]
+  requires t != nil && t.Module != nil && t.Module.Ast != nil && t.panicMode != nil && expr != nil
+  at LS after call findOverloadCast
+  ensures reached(LS) && overload == nil && 1 <= clsOf(lhs) && clsOf(lhs) <= 6 && 1 <= clsOf(expr.TargetType) && clsOf(expr.TargetType) <= 6 &&
+            !ast.castAdmissible(clsOf(lhs), clsOf(expr.TargetType)) ==> t.Module.Ast.Faulty
+  ensures reached(LS) && overload == nil && 1 <= clsOf(lhs) && clsOf(lhs) <= 6 && 1 <= clsOf(expr.TargetType) && clsOf(expr.TargetType) <= 6 &&
+            ast.castAdmissible(clsOf(lhs), clsOf(expr.TargetType)) ==>
+            t.Module.Ast.Faulty == at(LS, t.Module.Ast.Faulty) && t.latestReturnedType == expr.TargetType
+
 // ================= C14 / C04: what a variable accepts =================
 // verbatim from the statement: equivalent types, any numeric type for any numeric type, and any value but
 // 'nothing' for Variable
